@@ -47,4 +47,33 @@ def ns (c impl : List String) : Option Verdict :=
              | e :: _ => why e.1 }
   | _ => none
 
+/-- `nsw ran | …`: the real Watcher on real rtnetlink link messages (vf0 taken down and up) — a
+    subscriber receives exactly the changes its mask asks for, of its interface only (C19):
+    (vf0, any) sees the down and the up, (vf0, down) only something at the down, (vf0, up) only
+    something at the up, (lo, any) nothing; every channel is closed when the watch ends -/
+def nsw (c impl : List String) : Option Verdict :=
+  let want := "down a+D d+ u0 o0 up a+U d0 u+ o0 closed 4 nil"
+  match c with
+  | ["0"] => some { model := "skip", oracle := true, nontrivial := false }
+  | ["1"] =>
+    let got := " ".intercalate impl
+    some { model := want, oracle := got == want, nontrivial := true,
+           note := if got == want then "" else
+             "real rtnetlink link events: a subscriber did not receive exactly the changes of its interface that intersect its mask (a+ any, d+ down only, u+ up only, o0 other interface), or the channels were not all closed at the end of the watch" }
+  | _ => none
+
+/-- `nsa ran | …`: the real addresser on real rtnetlink dumps (C13–C15 OS glue): the configured
+    global addresses of vf0 with their flags (deprecated / temporary / tentative / valid-forever),
+    no IPv4 address, and the two routes put on the loopback interface -/
+def nsa (c impl : List String) : Option Verdict :=
+  let want := "addrs 3 2001:db8:1::1/64 0001 2001:db8:2::1/64 1000 fd00:0:0:3::1/56 0000 routes 2 2001:db8:f00:1::/64 2001:db8:f00::/48"
+  match c with
+  | ["0"] => some { model := "skip", oracle := true, nontrivial := false }
+  | ["1"] =>
+    let got := " ".intercalate impl
+    some { model := want, oracle := got == want, nontrivial := true,
+           note := if got == want then "" else
+             "real rtnetlink dumps: AddressesByIndex / LoopbackRoutes did not report the addresses of vf0 (with Deprecated for preferred_lft 0 and ValidForever for an unlimited lifetime, no IPv4) and the two loopback routes" }
+  | _ => none
+
 end Driver.Netns
